@@ -236,35 +236,72 @@ def run(ctx, chk, tier="quick"):
     _integrate(ctx, chk, mod, tck_attr)
 
     # ---------------- O4: delegation
+    sy_delegation(ctx, chk, "C14.O4", "integrating a different function breaks W' = Sy")
+
+
+IDENTITY_WRAPPERS = {"asarray", "asanyarray", "float", "float64", "array", "atleast_1d"}
+VALUE_CHANGING = {"maximum", "minimum", "clip", "abs", "absolute", "fabs", "where", "round", "around", "floor", "ceil", "fmax", "fmin", "nan_to_num", "max", "min"}
+
+
+def sy_delegation(ctx, chk, rule, why):
+    """SpecificYield.__call__ and .integrate are the value and the integral of ONE function: both hand their
+    arguments to the same spline attribute, and neither changes what comes back."""
     base_call = ctx.func("specific_yield.SpecificYield.__call__")
     base_int = ctx.func("specific_yield.SpecificYield.integrate")
 
     def ret_call(f):
+        """(delegating call, wrapper text or None, readable)"""
         rets = [n for n in ast.walk(f.node) if isinstance(n, ast.Return) and n.value is not None]
-        return rets[0].value if len(rets) == 1 and isinstance(rets[0].value, ast.Call) else None
+        if len(rets) != 1:
+            return None, None, False
+        v = rets[0].value
+        if isinstance(v, ast.Name):
+            dv = Flow.of(f).def_value(v)
+            v = dv if dv is not None else v
+        # identity wrappers
+        while isinstance(v, ast.Call) and (dotted_name(v.func) or "").split(".")[-1] in IDENTITY_WRAPPERS and len(v.args) == 1 \
+                and not (dotted_name(v.func) or "").startswith("self."):
+            v = v.args[0]
+        if isinstance(v, ast.Call) and (dotted_name(v.func) or "").startswith("self."):
+            return v, None, True
+        # W(self.attr(...), ...) / self.attr(...) op E with a value-changing W
+        inner = [c for c in ast.walk(v) if isinstance(c, ast.Call) and (dotted_name(c.func) or "").startswith("self.")]
+        if len(inner) == 1:
+            if isinstance(v, ast.Call) and (dotted_name(v.func) or "").split(".")[-1] in VALUE_CHANGING and any(a is inner[0] for a in v.args):
+                return inner[0], ast.unparse(v)[:70], True
+            if isinstance(v, (ast.BinOp, ast.UnaryOp)):
+                return inner[0], ast.unparse(v)[:70], True
+        return None, None, False
 
-    rc, ri = ret_call(base_call), ret_call(base_int)
+    (rc, wc, okc), (ri, wi, oki) = ret_call(base_call), ret_call(base_int)
     recv_c = dotted_name(rc.func) if rc is not None else None
     recv_i = dotted_name(ri.func) if ri is not None else None
-    readable = rc is not None and ri is not None and recv_c is not None and recv_c.startswith("self.") and recv_i is not None and recv_i.startswith("self.") \
-        and all(isinstance(a, ast.Name) for a in list(rc.args) + list(ri.args)) and not rc.keywords and not ri.keywords
+    readable = okc and oki and all(isinstance(a, ast.Name) for a in list(rc.args) + list(ri.args)) and not rc.keywords and not ri.keywords
     if not readable:
-        chk.indeterminate("C14.O4", where_of(base_int, base_int.node), "value / integral of the specific yield are not plain delegations `return self.<attr>(...)` with the parameters as arguments")
+        chk.indeterminate(rule, where_of(base_int, base_int.node), "value / integral of the specific yield are not plain delegations `return self.<attr>(...)` with the parameters as arguments")
     else:
-        desc = "value -> %s(...), integral -> %s(...)" % (recv_c, recv_i)
+        desc = "value -> %s, integral -> %s" % (wc or "%s(...)" % recv_c, wi or "%s(...)" % recv_i)
         ok = recv_i == recv_c + ".integrate" \
             and len(rc.args) == 1 and rc.args[0].id == base_call.params[1] \
             and len(ri.args) == 2 and [a.id for a in ri.args] == base_int.params[1:3]
-        chk.ob("C14.O4", ok, where_of(base_int, base_int.node), desc,
-               "both delegate to the same spline attribute, limits passed in order",
-               key="SpecificYield|delegation", why="integrating a different function breaks W' = Sy")
+        if ok and (wc is None) != (wi is None):
+            side = base_call if wc is not None else base_int
+            chk.ob(rule, False, where_of(side, side.node), desc + ": one side changes what the spline returns, the other does not",
+                   "value and integral of the same function: both the spline's own, or both changed consistently",
+                   key="SpecificYield|delegation", why=why + "; where the raw spline differs from the changed value (a cubic dipping below zero between knots) the integral is not the area under the value")
+        elif ok and wc is not None and wi is not None:
+            chk.indeterminate(rule, where_of(base_int, base_int.node), desc + ": both sides change the spline's result; whether consistently is not decided")
+        else:
+            chk.ob(rule, ok, where_of(base_int, base_int.node), desc,
+                   "both delegate to the same spline attribute, limits passed in order",
+                   key="SpecificYield|delegation", why=why)
     # subclasses do not override value/integral
     m = ctx.repo.module("specific_yield")
     for cname, cls in m.classes.items():
         if cname == "SpecificYield":
             continue
         over = [n.name for n in cls.body if isinstance(n, ast.FunctionDef) and n.name in ("__call__", "integrate")]
-        chk.ob("C14.O4", not over, (m.relpath, cname, cls.lineno), "class %s overrides %s" % (cname, over or "nothing"),
+        chk.ob(rule, not over, (m.relpath, cname, cls.lineno), "class %s overrides %s" % (cname, over or "nothing"),
                "value and integral come from the shared base implementation", key="specific_yield|%s|override" % cname)
 
 
